@@ -3,6 +3,7 @@ package props
 import (
 	"fmt"
 	"net/http"
+	"net/http/httptest"
 	"os"
 	"path/filepath"
 	"strings"
@@ -454,6 +455,60 @@ func init() {
 					}
 				}
 			}
+			st.NOutcomes = int(st.Execs)
+		}
+		// queries Go's form parser rejects or splits (';' separators, a stray '%'), through the REAL proxy to a loopback origin
+		// that echoes the request-URI it received (net/http's reverse proxy rewrites such queries once a request's form has
+		// been parsed): two keys that differ only there must not be answered with each other's — or a third URI's — response
+		if c.Want("real-proxy-odd-queries") && c.Shard == 3%c.NShards {
+			st := c.Stat("real-proxy-odd-queries", "enumeration")
+			pairs := [][2]string{{"/item?id=7;ref=a", "/item?id=7;ref=b"}, {"/item?id=7&discount=10%", "/item?id=7&discount=20%"}, {"/s?q=a;b", "/s?q=a"}, {"/s?q=%zz", "/s?q=%zy"}, {"/p?x=1&y=2", "/p?y=2&x=1"}}
+			st.Bounds = fmt.Sprintf("%d pairs of request-URIs, sequence A B A B through pike's handler chain and real proxy to a loopback origin (cacheable answers echoing the URI received), without and with a query parameter added by the location (+2 pairs)", len(pairs))
+			origin := httptest.NewUnstartedServer(http.HandlerFunc(func(w http.ResponseWriter, r *http.Request) {
+				w.Header().Set("Cache-Control", "max-age=100")
+				w.Header().Set("Content-Type", "text/plain")
+				fmt.Fprintf(w, "origin|%s|%s", r.Host, r.RequestURI)
+			}))
+			origin.Config.SetKeepAlivesEnabled(false)
+			origin.Start()
+			rcfg := &config.PikeConfig{
+				Caches:    []config.CacheConfig{{Name: "c1", Size: 100, HitForPass: "5m"}},
+				Upstreams: []config.UpstreamConfig{{Name: "u", Servers: []config.UpstreamServerConfig{{Addr: origin.URL}}}},
+				Locations: []config.LocationConfig{{Name: "l", Upstream: "u"}},
+				Servers:   []config.ServerConfig{{Addr: "127.0.0.1:0", Locations: []string{"l"}, Cache: "c1"}},
+			}
+			env.Silence()
+			procEnv = nil
+			for _, withQuery := range []bool{false, true} {
+				if withQuery { // the location adds a query parameter of its own: every key still gets the answer to ITS parameters
+					rcfg.Locations[0].QueryStrings = []string{"token:abc"}
+					pairs = append(pairs, [2]string{"/item?id=1", "/item?id=2"}, [2]string{"/item?id=1&token=x", "/item?id=1&token=y"})
+				}
+				for _, pr := range pairs {
+					env.FreshAll()
+					_ = env.Apply(rcfg)
+					e := &env.Env{}
+					e.RebindServersOnly()
+					for n, u := range []string{pr[0], pr[1], pr[0], pr[1]} {
+						r := e.Do(env.Req{URI: u, Rid: fmt.Sprintf("r%d", n)})
+						st.Execs++
+						ok := r.Status == 200 && string(r.Body) == "origin|a.com|"+u
+						if withQuery && r.Status == 200 {
+							got := strings.TrimPrefix(string(r.Body), "origin|a.com|")
+							gp, wp := strings.SplitN(got, "?", 2), strings.SplitN(u, "?", 2)
+							ok = len(gp) == 2 && gp[0] == wp[0] && multiset(gp[1]) == multiset(wp[1]+"&token=abc")
+						}
+						if !ok {
+							c.Violation("real-proxy-odd-queries", "wrong-key-response", fmt.Sprintf("keys %q and %q (location adds a query parameter: %v): request %d for %q was answered %d %q (label %s)", pr[0], pr[1], withQuery, n, u, r.Status, trunc(r.Body), r.XStatus), nil, map[string]interface{}{"a": pr[0], "b": pr[1], "location_query": withQuery}, nil)
+							break
+						}
+					}
+				}
+			}
+			env.FreshAll()
+			procEnv = nil
+			origin.Close()
+			st.States, st.Transitions, st.Nontrivial = st.Execs, st.Execs, st.Execs
 			st.NOutcomes = int(st.Execs)
 		}
 		// URIs that contain another key's URI (after "://", after "?u=", dot segments, parameters): raw request-URIs are the key
